@@ -23,6 +23,9 @@ RULE = ("Hypothesis draws an integer matrix [b|A] with 1-5 rows x 1-5 columns an
         "rows (A_r.x == b_r) are all common. The polyhedron is built with default variables or with an explicit "
         "variable list (support variable first); one case in four goes through the module level aliases. Oracle: "
         "per point and row Python-int arithmetic; values and np.shape of all three results are compared. "
+        "Part 'derived': after a first query other polyhedra are derived from the queried one the numpy way (row reversal, row "
+        "selection, copy+edit, scaling) or it is edited in place, and each is classified against its own matrix (a cache of A/b "
+        "that outlives an edit or leaks into derived arrays is visible only this way). "
         "Non-trivial = both a satisfied and a violated (point,row) pair occur; distinct = SHA-1 of the canonical "
         "case JSON.")
 ASSUMPTIONS = [
@@ -65,9 +68,7 @@ def _poly(case):
     return pnd.ge_polyhedron(case["m"])
 
 
-def check_points(case, ev):
-    puan, pnd, np = _mods()
-    M, pts = case["m"], case["pts"]
+def _expected(M, pts):
     nd = _ndim(pts)
     groups = [[pts]] if nd == 1 else [pts] if nd == 2 else pts
     n_rows = len(M)
@@ -87,6 +88,28 @@ def check_points(case, ev):
     else:
         exp = {"ineqs_satisfied": (sat, (len(groups), n_pts)), "separable": (sep, (len(groups), n_pts)),
                "ineq_separate_points": (isp, (len(groups), n_rows))}
+    return exp, dict(nd=nd, groups=groups, n_rows=n_rows, n_pts=n_pts, lhs=lhs, holds=holds, sat=sat, isp=isp, b=b)
+
+
+def _compare(name, r, exp, info, M, pts, note=""):
+    puan, pnd, np = _mods()
+    want, shape = exp[name]
+    nd, lhs, b = info["nd"], info["lhs"], info["b"]
+    got_shape = tuple(int(s) for s in np.shape(r))
+    got = _bools(np.asarray(r).tolist())
+    if got_shape != shape:
+        raise Violation(f"{note}{name}: result shape {got_shape}, expected {shape} for points of ndim {nd}; matrix {M}; "
+                        f"points {pts}; result {got}")
+    if got != want:
+        raise Violation(f"{note}{name}: got {got}, expected {want}; matrix [b|A] {M}; points {pts}; "
+                        f"A.x per point {lhs if nd == 3 else lhs[0] if nd == 2 else lhs[0][0]} vs b {b}")
+
+
+def check_points(case, ev):
+    puan, pnd, np = _mods()
+    M, pts = case["m"], case["pts"]
+    exp, info = _expected(M, pts)
+    nd, groups, n_rows, n_pts, lhs, holds, sat, isp, b = (info[k] for k in ("nd", "groups", "n_rows", "n_pts", "lhs", "holds", "sat", "isp", "b"))
     alias = bool(case.get("alias"))
     for name in ("ineqs_satisfied", "separable", "ineq_separate_points"):
         P = call(_poly, case, what="ge_polyhedron construction")
@@ -95,15 +118,7 @@ def check_points(case, ev):
             r = call(getattr(pnd, name), P, X, what=f"puan.ndarray.{name}")
         else:
             r = call(getattr(P, name), X, what=name)
-        want, shape = exp[name]
-        got_shape = tuple(int(s) for s in np.shape(r))
-        got = _bools(np.asarray(r).tolist())
-        if got_shape != shape:
-            raise Violation(f"{name}: result shape {got_shape}, expected {shape} for points of ndim {nd}; matrix {M}; "
-                            f"points {pts}; result {got}")
-        if got != want:
-            raise Violation(f"{name}: got {got}, expected {want}; matrix [b|A] {M}; points {pts}; "
-                            f"A.x per point {lhs if nd == 3 else lhs[0] if nd == 2 else lhs[0][0]} vs b {b}")
+        _compare(name, r, exp, info, M, pts)
     flat = [h for g in holds for p in g for h in p]
     cls = [f"ndim={nd}", "vars=explicit" if case.get("vars") else "vars=default", f"flavour={case.get('flavour')}"]
     if alias:
@@ -177,5 +192,70 @@ def points_case(draw):
     return case
 
 
+def check_derived(case, ev):
+    """A polyhedron is queried, then other polyhedra are derived from it the numpy way (row reversal, row selection,
+    copy + edit, scaling) or it is edited in place, and every one of them is classified against ITS OWN matrix."""
+    puan, pnd, np = _mods()
+    M = [list(r) for r in case["m"]]
+    pts = case["pts"]
+    X = np.array(pts, dtype=np.int64)
+    P = call(_poly, case, what="ge_polyhedron construction")
+    names = ("ineqs_satisfied", "separable", "ineq_separate_points")
+    exp, info = _expected(M, pts)
+    for name in names:
+        _compare(name, call(getattr(P, name), X, what=name), exp, info, M, pts, "first query: ")
+    n_ops = 0
+    for op in case["ops"]:
+        k = op[0]
+        if k == "reverse":
+            Q, MQ = P[::-1], M[::-1]
+        elif k == "rows":
+            idx = [i % len(M) for i in op[1]] or [0]
+            Q, MQ = P[idx], [M[i] for i in idx]
+        elif k == "copy_edit":
+            r, c, d = op[1] % len(M), op[2] % len(M[0]), op[3]
+            Q = P.copy()
+            Q[r, c] += d
+            MQ = [list(row) for row in M]
+            MQ[r][c] += d
+        elif k == "scale":
+            Q, MQ = P * op[1], [[x * op[1] for x in row] for row in M]
+        else:   # in place edit of the queried polyhedron itself
+            r, c, d = op[1] % len(M), op[2] % len(M[0]), op[3]
+            P[r, c] += d
+            M[r][c] += d
+            Q, MQ = P, M
+        if np.asarray(Q).tolist() != MQ:
+            continue      # the derivation itself is numpy's business; only classification is judged
+        n_ops += 1
+        e2, i2 = _expected(MQ, pts)
+        for name in names:
+            _compare(name, call(getattr(Q, name), X, what=name), e2, i2, MQ, pts, f"after {k}: ")
+    flat = [h for g in info["holds"] for p in g for h in p]
+    ev.case(case, n_ops >= 1 and any(flat) and not all(flat), [f"ndim={info['nd']}", "ops=%d" % n_ops] + ["op:" + o[0] for o in case["ops"]])
+
+
+@st.composite
+def derived_case(draw):
+    case = draw(points_case())
+    case.pop("alias", None)
+    ops = []
+    for _ in range(draw(st.integers(1, 3))):
+        # (row selection by plain indexing is not generated: the row index is not masked by numpy, the library's own
+        #  reduce_rows passes it explicitly, and .A then refuses the inconsistent object)
+        k = draw(st.sampled_from(["reverse", "copy_edit", "scale", "edit", "edit"]))
+        if k == "reverse":
+            ops.append(["reverse"])
+        elif k == "rows":
+            ops.append(["rows", draw(st.lists(st.integers(0, 4), min_size=1, max_size=4))])
+        elif k == "scale":
+            ops.append(["scale", draw(st.sampled_from([2, 3, -1]))])
+        else:
+            ops.append([k, draw(st.integers(0, 4)), draw(st.integers(0, 5)), draw(st.sampled_from([-2, -1, 1, 2, 3]))])
+    case["ops"] = ops
+    return case
+
+
 def parts(tier):
-    return [Part("points", strategy=lambda t: points_case(), check=check_points, quick=(8, 700), thorough=(16, 20000))]
+    return [Part("derived", strategy=lambda t: derived_case(), check=check_derived, quick=(3, 500), thorough=(6, 8000)),
+            Part("points", strategy=lambda t: points_case(), check=check_points, quick=(8, 700), thorough=(16, 20000))]
